@@ -110,6 +110,7 @@ static void synth_model(Model &m, Prng &r) {
     if (r.chance(0.4)) { fill_mat(m.pls->predicted_y, n, ny * k, r, any_scale(r)); fill_mat(m.pls->pred_residuals, n, ny * k, r, 1); fill_mat(m.pls->q2y, k, ny, r, 1); fill_mat(m.pls->sdep, k, ny, r, 1); fill_mat(m.pls->bias, k, ny, r, 1); }
     if (r.chance(0.3)) { AddTensorMatrix(m.pls->roc_recalculated, 3, 2); m.pls->roc_recalculated->m[0]->data[1][1] = r.unit(); fill_mat(m.pls->roc_auc_recalculated, k, ny, r, 1); }
     if (r.chance(0.3)) fill_mat(m.pls->yscrambling, 3, 3 * ny, r, 1);
+    if (r.chance(0.4)) { fill_mat(m.pls->sdec, k, ny, r, 1); fill_mat(m.pls->r2y_recalculated, k, ny, r, 1); }   // fit statistics independent of the validation ones
     if (r.chance(0.15)) ResizeMatrix(m.pls->r2y_validation, 0, (size_t)r.range(1, 3));   // a field with columns but no rows: 0 x c must read back as 0 x c
     if (r.chance(0.15)) ResizeMatrix(m.pls->roc_auc_validation, (size_t)r.range(1, 3), 0);
   }
@@ -206,7 +207,8 @@ struct HIo : Harness {
     Outcome o;
     simvfs_install();
     simvfs_reset_stats();
-    char dir[256]; snprintf(dir, sizeof dir, "/dev/shm/lsci-verif.%d.%llu", (int)getpid(), (unsigned long long)++scratch_n);
+    const char *root = getenv("SIM_SCRATCH_ROOT");
+    char dir[256]; snprintf(dir, sizeof dir, "%s/lsci-verif.%d.%llu", root && *root ? root : "/dev/shm", (int)getpid(), (unsigned long long)++scratch_n);
     scratch = dir; mkdir(dir, 0700);
     sim_cfg sc; std::vector<sim_switch> rs; cfg_from_plan(p, sc, rs); sc.step_limit = 0; sc.detect_races = 0; sc.nproc = 1;  // model fitting is not what C16 is about: no worker threads here
     sim_begin_run(&sc);
